@@ -144,6 +144,7 @@ def run(idx: ProgramIndex, rep: Report, tier: str):
     predictive_assembly(idx, rep)
     symmetric_mixing(idx, rep)
     preprocessing_hook_not_skipped(idx, rep)
+    conditional_reduction_on_every_path(idx, rep)
 
 
 # ---- C14-6: q(u) is what the parameters encode, for every reader and in every mode ---------------------------------------
@@ -925,3 +926,110 @@ def preprocessing_hook_not_skipped(idx: ProgramIndex, rep: Report):
                 ("the hook runs on every call" if not conditional else "the override only broadcasts") if ok else
                 "the override re-shapes x (%s), but _VariationalStrategy.__call__ calls the hook only under `%s`: when the user's batch shape happens to equal the stored inducing batch shape the axis is not inserted - BatchDecoupledVariationalStrategy on x of shape [2, N, D] returns q(f) of shape [N] with the mean of x[0] and the covariance of x[1]" % (", ".join(ops), conditional[0]), {})
     rep.floor("C14-18", "overrides of _expand_inputs", n, 1)
+
+
+# ---- C14-19 --------------------------------------------------------------------------------------------------------
+def conditional_reduction_on_every_path(idx: ProgramIndex, rep: Report):
+    """q(f) has covariance Kxx - Kxz Kzz^-1 (Kzz - S) Kzz^-1 Kzx: whatever q(u) is - also a point mass, S = 0 - the reduction
+    Kxz Kzz^-1 Kzx of the prior conditional is part of it.  The strategies that slice the joint prior covariance into its blocks take
+    Kzx as `full_covar[..., :num_induc, num_induc:]`.  The clause: on every path through such a `forward`, the covariance handed to
+    the returned distribution depends (assignment dataflow, forked at every `if`) on that cross block, once the path has sliced the
+    joint covariance (an earlier return - q(u) itself for x == Z - is outside the clause).  A path on which it does not
+    returns the prior covariance Kxx for some kind of q(u)."""
+    rep.rule("C14-19", "on every path through a strategy's forward that slices the joint prior covariance, the covariance of the returned q(f) depends on the inducing/data cross block (the reduction Kxz Kzz^-1 Kzx of the prior conditional is never skipped, e.g. for a q(u) without covariance)")
+    VS = idx.find_class("_VariationalStrategy")
+
+    def is_source(e: ast.AST) -> bool:
+        # X[..., :n, n:] with one and the same name n: the (inducing, data) block of the joint covariance
+        if not (isinstance(e, ast.Subscript) and isinstance(e.slice, ast.Tuple)):
+            return False
+        sl = [x for x in e.slice.elts if isinstance(x, ast.Slice)]
+        if len(sl) != 2:
+            return False
+        a, b = sl
+        return (a.lower is None and isinstance(a.upper, ast.Name) and b.upper is None and isinstance(b.lower, ast.Name) and a.upper.id == b.lower.id
+                and a.step is None and b.step is None)
+
+    def tainted(e: ast.AST, env: Dict[str, bool]) -> bool:
+        for x in ast.walk(e):
+            if is_source(x):
+                return True
+            if isinstance(x, ast.Name) and env.get(x.id):
+                return True
+        return False
+
+    def target_names(t: ast.AST) -> List[str]:
+        return [x.id for x in ast.walk(t) if isinstance(x, ast.Name)]
+
+    def run_block(stmts: List[ast.stmt], env: Dict[str, bool], out: List[Tuple[ast.Return, Dict[str, bool]]]) -> List[Dict[str, bool]]:
+        """returns the environments with which control falls off the end of the block; returns reached are appended to `out`"""
+        envs = [env]
+        for st in stmts:
+            nxt: List[Dict[str, bool]] = []
+            for e in envs:
+                if isinstance(st, ast.Return):
+                    out.append((st, e))
+                    continue
+                if isinstance(st, ast.Raise):
+                    continue
+                if isinstance(st, ast.If):
+                    nxt += run_block(st.body, dict(e), out) + run_block(st.orelse, dict(e), out)
+                    continue
+                if isinstance(st, (ast.With, ast.For, ast.While)):
+                    body = run_block(st.body, dict(e), out)
+                    nxt += body + ([dict(e)] if not isinstance(st, ast.With) else [])
+                    continue
+                if isinstance(st, ast.Try):
+                    nxt += run_block(st.body + st.orelse + st.finalbody, dict(e), out)
+                    for h in st.handlers:
+                        nxt += run_block(h.body + st.finalbody, dict(e), out)
+                    continue
+                e2 = dict(e)
+                if isinstance(st, ast.Assign):
+                    tv = tainted(st.value, e)
+                    if any(is_source(x) for x in ast.walk(st.value)):
+                        e2["<sliced>"] = True
+                    zero = isinstance(st.value, ast.Call) and (chain(st.value.func) or "").split(".")[-1] == "ZeroLinearOperator"
+                    for t in st.targets:
+                        for nme in target_names(t):
+                            e2[nme] = tv
+                            e2["<zero>" + nme] = zero
+                elif isinstance(st, ast.AugAssign):
+                    for nme in target_names(st.target):
+                        e2[nme] = e.get(nme, False) or tainted(st.value, e)
+                elif isinstance(st, ast.AnnAssign) and st.value is not None:
+                    for nme in target_names(st.target):
+                        e2[nme] = tainted(st.value, e)
+                nxt.append(e2)
+            envs = nxt
+        return envs
+
+    n = 0
+    for cls in sorted([VS] + list(idx.subclasses(VS)), key=lambda c: (c.module.name, c.qualname)):
+        fw = cls.methods.get("forward")
+        if fw is None or not any(is_source(x) for x in ast.walk(fw.node)):
+            continue
+        # the joint covariance has to be the *prior* (self.model.forward); a strategy that wraps another variational model and slices
+        # that model's q(f) (`self.model(...)`: OrthogonallyDecoupledVariationalStrategy) takes its covariance from the wrapped model
+        if not any(isinstance(c.func, ast.Attribute) and c.func.attr == "forward" and (chain(c.func.value) or "").endswith(".model") for c in calls_in(fw.node)):
+            continue
+        n += 1
+        rets: List[Tuple[ast.Return, Dict[str, bool]]] = []
+        run_block(body_without_docstring(fw.node), {}, rets)
+        probs, paths = [], 0
+        for r, env in rets:
+            v = r.value
+            if not (isinstance(v, ast.Call) and len(v.args) >= 2 and (chain(v.func) or "").split(".")[-1].endswith("Normal")):
+                continue
+            if not env.get("<sliced>"):
+                continue  # (a return before the joint covariance is sliced, e.g. q(u) itself for x == Z: outside the clause)
+            if isinstance(v.args[1], ast.Name) and env.get("<zero>" + v.args[1].id) and "skip_posterior_variances" in src(fw.node):
+                continue  # (the explicit zero placeholder of settings.skip_posterior_variances: no covariance is asked for)
+            paths += 1
+            if not tainted(v.args[1], env):
+                probs.append("a path reaches `return %s` with a covariance that does not depend on the cross block `[..., :n, n:]` of the joint prior covariance: for the q(u) of that path the strategy returns the prior covariance Kxx instead of Kxx - Kxz Kzz^-1 (Kzz - S) Kzz^-1 Kzx" % " ".join(src(v).split())[:60])
+        if paths == 0:
+            raise AnalysisError("C14-19: %s.forward slices the cross block but returns no distribution built from two arguments (anchor)" % cls.qualname)
+        rep.add("C14-19", "%s:%s.forward[covariance depends on Kzx]" % (cls.module.name, cls.qualname), fw.where, not probs,
+                "all %d returning paths hand out a covariance computed from the cross block" % paths if not probs else "; ".join(sorted(set(probs))), {"paths": paths})
+    rep.floor("C14-19", "strategies slicing the joint prior covariance", n, 4)
